@@ -650,12 +650,23 @@ def r06_5(chk, repo):
         ev2 = sf.ev(q2, opaque={"l", "u", "verts", "faces", "pts", "d", "weights", "x", "y", "z"})
         chk.saw(SF, q2)
         grids = {}
+        gdt = {}
         for e in ev2.events:
             if e.kind == "assign" and e.name in ("x_grid", "y_grid", "z_grid"):
                 a = e.value.as_atom()
+                if a and call_name(a) == "numpy.arange":
+                    kwd = dict(a[3]) if len(a) > 3 and a[3] else {}
+                    if len(a[2]) > 3:
+                        kwd.setdefault("dtype", a[2][3])
+                    gdt[e.name] = kwd["dtype"].key() if "dtype" in kwd else None
                 grids[e.name] = (a[2][0].key(), a[2][1].key(), a[2][2].key()) if a and call_name(a) == "numpy.arange" and len(a[2]) >= 3 else None
         okg = all(grids.get(f"{ax}_grid") == (f"$l[{k}]", f"$u[{k}]", "sep") for k, ax in enumerate("xyz"))
         chk.ob("R06.5", SF, q2, "grid axis k runs from l[k] to u[k] with the separation", okg, fingerprint=f"{q2}:grid", found=str(grids))
+        FLOATS = {"numpy.float32", "numpy.float64", "numpy.double", "numpy.single", "float", "'float32'", "'float64'", "'f4'", "'f8'", "numpy.float_"}
+        badd = {k: v for k, v in gdt.items() if v is not None and v not in FLOATS}
+        chk.ob("R06.5", SF, q2, "the grid coordinates are floating point whatever the type of the separation: np.arange gets no dtype or a constant "
+               "floating dtype (a dtype taken from the separation truncates the coordinates for an integer separation, while the vertices are "
+               "still shifted by the untruncated box origin)", not badd, fingerprint=f"{q2}:grid-dtype", expected="dtype=np.float32", found=str(badd or gdt))
         vs = [e for e in ev2.events if e.kind == "assign" and e.name == "verts"]
         L0 = P.atom(("local", "l", 0))
         kinds = []
